@@ -32,7 +32,20 @@ const prop = "C17"
 const (
 	kfGoName = "C17-envmap-go-name-of-tagged-field"
 	kfQuoted = "C17-quoted-key-resplit"
+	kfMapSS  = "C17-mapss-missing-key-present"
 )
+
+// avoider returns the callback the generators hand to invalidSteps: it answers whether the
+// finding is open and counts the avoided candidates.
+func avoider(rec *ev.Rec, known *kf.File) func(string) bool {
+	return func(id string) bool {
+		if known.Open(id) {
+			rec.Excluded(id)
+			return true
+		}
+		return false
+	}
+}
 
 // ---------------------------------------------------------------------------------------
 // Family 1: operation sequences
@@ -747,8 +760,21 @@ func classifyPath(c PathCase) (bool, []string) {
 	switch out {
 	case reach:
 		cls["valid"] = true
-		if nilish(exp) {
-			cls["valid:nil-element"] = true
+		switch {
+		case nilish(exp):
+			cls["final:nil-element"] = true
+		case reflect.TypeOf(exp).Kind() == reflect.Array:
+			cls["final:array"] = true
+		case reflect.TypeOf(exp).Kind() == reflect.Slice:
+			cls["final:slice"] = true
+		case reflect.TypeOf(exp).Kind() == reflect.Map:
+			cls["final:map"] = true
+		case reflect.TypeOf(exp).Kind() == reflect.Struct:
+			cls["final:struct"] = true
+		case reflect.TypeOf(exp).Kind() == reflect.Ptr:
+			cls["final:pointer"] = true
+		default:
+			cls["final:scalar"] = true
 		}
 	case unspec:
 		cls["unspecified"] = true
